@@ -1,8 +1,618 @@
-//! netcode engine (E4) — placeholder until the netcode slice lands
+//! netcode engine (E4 + the netcode part of E1): implementation world for the `renetcode` crate,
+//! profiles (scripts) and trace oracles.
+//!
+//! Line protocol (one op per line, tokens separated by one space; `<u>` decimal u64, `<hex>` lower-case
+//! hex or `-` for empty, `<key>` 64 hex digits, `<addr>` = `4:<8 hex>:<port>` | `6:<32 hex>:<port>`,
+//! `<addrs>` = `-` | comma separated `<addr>` or `_` (empty slot), `<dg>` = `<hex>` | `@<k>` (k-th
+//! datagram emitted so far in this case by any endpoint, in op order)):
+//!
+//!   rp-run <cmd>{,<cmd>}          cmd = a<u> (advance) | q<u> (already_received?)   -> <bits|-> <rp-dump>
+//!   nc-enc <cap> <proto> <seq|-> <key|-> <packet>                                   -> ok <hex> | err:<E>
+//!   nc-dec <proto> <key|-> <rp> <dg>       rp = - | n{,<u>}                          -> ok <seq> <packet> rp=<rp-dump|-> | err:<E> rp=<rp-dump|->
+//!        packet = req <ver13> <proto> <expire> <xnonce24> <data1024> | denied | chal <seq> <data300>
+//!               | resp <seq> <data300> | ka <client_index> <max_clients> | pay <hex> | disc
+//!   tok-write <id> <ver13> <proto> <create> <expire> <xnonce> <private1024> <timeout-i32> <addrs> <c2s> <s2c> -> ok <hex>
+//!   tok-read <hex>                        -> ok <same 11 fields> | err:<E>
+//!   tok-gen <now_us> <proto> <expire_secs> <id> <timeout> <addrs, no holes> <ud512hex|-> <key>   (ConnectToken::generate; random parts not shown)
+//!                                         -> ok <id> <ver13> <proto> <create> <expire> <timeout> <addrs> consistent=<0|1> | err:<TokenGenerationError> | panic
+//!   ptok-seal <proto> <expire> <xnonce> <key> <id> <timeout> <addrs> <c2s> <s2c> <ud<=256 bytes, zero padded> -> ok <hex1024> | err
+//!   ptok-open <proto> <expire> <xnonce> <key> <hex1024>                              -> ok <id> <timeout> <addrs> <c2s> <s2c> <ud> | err
+//!   srv-new <s> <now_us> <max> <proto> <secure:0|1> <key> <challenge_key> <addrs>    -> ok | panic
+//!   srv-setmax <s> <n> | srv-upd <s> <micros>                                        -> ok
+//!   srv-updc <s> <id> | srv-disc <s> <id> | srv-rx <s> <addr> <dg>                   -> <result>
+//!        result = none | send <addr> <hex> | payload <id> <hex> | connected <id> <addr> <ud-hex> <hex>
+//!               | disconnected <id> <addr> <hex|none>
+//!   srv-pay <s> <id> <hex>                -> send <addr> <hex> | err:<E>
+//!   srv-q <s> <id>                        -> ids=[..] n=<k> max=<m> conn=<0|1> addr=<addr|-> ud=<hex8|-> idle=<ns|->
+//!   srv-dump <s>                          -> NetcodeServer::verif_dump()
+//!   cli-new <c> <now_us> <token-hex>      -> ok | err:<E> | panic
+//!   cli-upd <c> <micros>                  -> none | send <addr> <hex>
+//!   cli-rx <c> <dg>                       -> none | payload <hex>
+//!   cli-pay <c> <hex> | cli-disc <c>      -> send <addr> <hex> | err:<E>
+//!   cli-q <c>                             -> connecting=.. connected=.. disconnected=.. reason=<R|-> id=.. addr=.. idle=<ns> now=<ns>
+//!   cli-dump <c>                          -> NetcodeClient::verif_dump()
+//!   note <word>                           -> ok        (tags for the oracles: hostile, …)
+//! Unknown handle or malformed argument -> bad-op.  A Rust unwind -> panic (then `dead`).
 use crate::common::*;
-pub fn profiles() -> Vec<Profile> {
-    vec![]
+use chacha20poly1305::aead::{AeadInPlace, KeyInit};
+use chacha20poly1305::{ChaCha20Poly1305, Key, Nonce, Tag, XChaCha20Poly1305, XNonce};
+use renetcode::verif::{addr_text, private_token_decode, private_token_encode, Packet, PrivateFields, ReplayProtection};
+use renetcode::{
+    ClientAuthentication, ConnectToken, NetcodeClient, NetcodeError, NetcodeServer, ServerAuthentication, ServerConfig, ServerResult,
+};
+use std::collections::{HashMap, HashSet};
+use std::net::{IpAddr, Ipv4Addr, Ipv6Addr, SocketAddr};
+use std::time::Duration;
+
+// =============================================================================================
+// text helpers (shared by the world, the scripts and the oracles)
+// =============================================================================================
+
+fn p_u64(s: &str) -> Option<u64> {
+    if s.is_empty() || !s.bytes().all(|c| c.is_ascii_digit()) {
+        return None;
+    }
+    s.parse::<u64>().ok()
 }
-pub fn oracles() -> Vec<Oracle> {
-    vec![]
+
+fn p_i32(s: &str) -> Option<i32> {
+    let body = s.strip_prefix('-').unwrap_or(s);
+    if body.is_empty() || !body.bytes().all(|c| c.is_ascii_digit()) {
+        return None;
+    }
+    s.parse::<i32>().ok()
 }
+
+fn p_hex(s: &str) -> Option<Vec<u8>> {
+    if s != "-" && !s.bytes().all(|c| c.is_ascii_digit() || (b'a'..=b'f').contains(&c)) {
+        return None;
+    }
+    unhex(s)
+}
+
+fn p_hexn<const N: usize>(s: &str) -> Option<[u8; N]> {
+    let v = p_hex(s)?;
+    if v.len() != N {
+        return None;
+    }
+    let mut a = [0u8; N];
+    a.copy_from_slice(&v);
+    Some(a)
+}
+
+fn p_user_data(s: &str) -> Option<[u8; 256]> {
+    let v = p_hex(s)?;
+    if v.len() > 256 {
+        return None;
+    }
+    let mut a = [0u8; 256];
+    a[..v.len()].copy_from_slice(&v);
+    Some(a)
+}
+
+fn p_addr(s: &str) -> Option<SocketAddr> {
+    let parts: Vec<&str> = s.split(':').collect();
+    if parts.len() != 3 || parts[1] == "-" {
+        return None;
+    }
+    let ip = p_hex(parts[1])?;
+    let port = p_u64(parts[2])?;
+    if port >= 65536 {
+        return None;
+    }
+    match (parts[0], ip.len()) {
+        ("4", 4) => Some(SocketAddr::new(IpAddr::V4(Ipv4Addr::new(ip[0], ip[1], ip[2], ip[3])), port as u16)),
+        ("6", 16) => {
+            let mut a = [0u8; 16];
+            a.copy_from_slice(&ip);
+            Some(SocketAddr::new(IpAddr::V6(Ipv6Addr::from(a)), port as u16))
+        }
+        _ => None,
+    }
+}
+
+fn p_addrs(s: &str) -> Option<Vec<Option<SocketAddr>>> {
+    p_addrs_max(s, 32)
+}
+
+fn p_addrs_max(s: &str, max: usize) -> Option<Vec<Option<SocketAddr>>> {
+    if s == "-" {
+        return Some(vec![]);
+    }
+    let parts: Vec<&str> = s.split(',').collect();
+    if parts.len() > max {
+        return None;
+    }
+    let mut v = vec![];
+    for p in parts {
+        if p == "_" {
+            v.push(None);
+        } else {
+            v.push(Some(p_addr(p)?));
+        }
+    }
+    Some(v)
+}
+
+fn show_addrs(a: &[Option<SocketAddr>]) -> String {
+    let mut n = a.len();
+    while n > 0 && a[n - 1].is_none() {
+        n -= 1;
+    }
+    if n == 0 {
+        return "-".into();
+    }
+    let v: Vec<String> = a[..n]
+        .iter()
+        .map(|x| match x {
+            Some(x) => addr_text(x),
+            None => "_".to_string(),
+        })
+        .collect();
+    v.join(",")
+}
+
+fn addr_array(v: &[Option<SocketAddr>]) -> [Option<SocketAddr>; 32] {
+    let mut a = [None; 32];
+    for (i, x) in v.iter().take(32).enumerate() {
+        a[i] = *x;
+    }
+    a
+}
+
+fn err_name(e: &NetcodeError) -> String {
+    use NetcodeError::*;
+    match e {
+        UnavailablePrivateKey => "UnavailablePrivateKey".into(),
+        InvalidPacketType => "InvalidPacketType".into(),
+        InvalidProtocolID => "InvalidProtocolID".into(),
+        InvalidVersion => "InvalidVersion".into(),
+        PacketTooSmall => "PacketTooSmall".into(),
+        PayloadAboveLimit => "PayloadAboveLimit".into(),
+        DuplicatedSequence => "DuplicatedSequence".into(),
+        NoMoreServers => "NoMoreServers".into(),
+        Expired => "Expired".into(),
+        Disconnected(r) => format!("Disconnected({:?})", r),
+        CryptoError => "CryptoError".into(),
+        NotInHostList => "NotInHostList".into(),
+        ClientNotFound => "ClientNotFound".into(),
+        ClientNotConnected => "ClientNotConnected".into(),
+        IoError(_) => "IoError".into(),
+        TokenGenerationError(t) => format!(
+            "TokenGenerationError({})",
+            match t {
+                renetcode::TokenGenerationError::MaxHostCount => "MaxHostCount",
+                renetcode::TokenGenerationError::CryptoError => "CryptoError",
+                renetcode::TokenGenerationError::IoError(_) => "IoError",
+                renetcode::TokenGenerationError::NoServerAddressAvailable => "NoServerAddressAvailable",
+            }
+        ),
+    }
+}
+
+fn show_packet(p: &Packet) -> String {
+    match p {
+        Packet::ConnectionRequest { version_info, protocol_id, expire_timestamp, xnonce, data } => {
+            format!("req {} {} {} {} {}", hex(version_info), protocol_id, expire_timestamp, hex(xnonce), hex(data))
+        }
+        Packet::ConnectionDenied => "denied".into(),
+        Packet::Challenge { token_sequence, token_data } => format!("chal {} {}", token_sequence, hex(token_data)),
+        Packet::Response { token_sequence, token_data } => format!("resp {} {}", token_sequence, hex(token_data)),
+        Packet::KeepAlive { client_index, max_clients } => format!("ka {} {}", client_index, max_clients),
+        Packet::Payload(p) => format!("pay {}", hex(p)),
+        Packet::Disconnect => "disc".into(),
+    }
+}
+
+/// Owned packet description (the payload of `Packet::Payload` is borrowed in the library type).
+enum PacketTerm {
+    Req([u8; 13], u64, u64, [u8; 24], [u8; 1024]),
+    Denied,
+    Chal(u64, [u8; 300]),
+    Resp(u64, [u8; 300]),
+    Ka(u32, u32),
+    Pay(Vec<u8>),
+    Disc,
+}
+
+fn p_packet(t: &[&str]) -> Option<PacketTerm> {
+    match t {
+        ["req", v, pid, e, x, d] => Some(PacketTerm::Req(p_hexn(v)?, p_u64(pid)?, p_u64(e)?, p_hexn(x)?, p_hexn(d)?)),
+        ["denied"] => Some(PacketTerm::Denied),
+        ["chal", s, d] => Some(PacketTerm::Chal(p_u64(s)?, p_hexn(d)?)),
+        ["resp", s, d] => Some(PacketTerm::Resp(p_u64(s)?, p_hexn(d)?)),
+        ["ka", i, m] => {
+            let i = p_u64(i)?;
+            let m = p_u64(m)?;
+            if i >= 1 << 32 || m >= 1 << 32 {
+                return None;
+            }
+            Some(PacketTerm::Ka(i as u32, m as u32))
+        }
+        ["pay", p] => Some(PacketTerm::Pay(p_hex(p)?)),
+        ["disc"] => Some(PacketTerm::Disc),
+        _ => None,
+    }
+}
+
+impl PacketTerm {
+    fn packet(&self) -> Packet<'_> {
+        match self {
+            PacketTerm::Req(v, p, e, x, d) => Packet::ConnectionRequest {
+                version_info: *v,
+                protocol_id: *p,
+                expire_timestamp: *e,
+                xnonce: *x,
+                data: *d,
+            },
+            PacketTerm::Denied => Packet::ConnectionDenied,
+            PacketTerm::Chal(s, d) => Packet::Challenge { token_sequence: *s, token_data: *d },
+            PacketTerm::Resp(s, d) => Packet::Response { token_sequence: *s, token_data: *d },
+            PacketTerm::Ka(i, m) => Packet::KeepAlive { client_index: *i, max_clients: *m },
+            PacketTerm::Pay(p) => Packet::Payload(p),
+            PacketTerm::Disc => Packet::Disconnect,
+        }
+    }
+}
+
+/// Datagram carried by an output line of srv-rx / srv-updc / srv-disc / srv-pay / cli-upd / cli-pay / cli-disc.
+fn emitted_of(op: &str, out: &str) -> Option<(String, Vec<u8>)> {
+    let kind = op.split(' ').next().unwrap_or("");
+    if !matches!(kind, "srv-rx" | "srv-updc" | "srv-disc" | "srv-pay" | "cli-upd" | "cli-pay" | "cli-disc") {
+        return None;
+    }
+    let t: Vec<&str> = out.split(' ').collect();
+    match t.as_slice() {
+        ["send", a, h] => Some((a.to_string(), unhex(h)?)),
+        ["connected", _, a, _, h] => Some((a.to_string(), unhex(h)?)),
+        ["disconnected", _, a, h] if *h != "none" => Some((a.to_string(), unhex(h)?)),
+        _ => None,
+    }
+}
+
+// =============================================================================================
+// the implementation world
+// =============================================================================================
+
+#[derive(Default)]
+pub struct NcWorld {
+    servers: HashMap<u64, NetcodeServer>,
+    clients: HashMap<u64, NetcodeClient>,
+    history: Vec<Vec<u8>>,
+}
+
+fn new_world() -> Box<dyn World> {
+    Box::new(NcWorld::default())
+}
+
+fn show_result(r: ServerResult) -> String {
+    match r {
+        ServerResult::None => "none".into(),
+        ServerResult::PacketToSend { addr, payload } => format!("send {} {}", addr_text(&addr), hex(payload)),
+        ServerResult::Payload { client_id, payload } => format!("payload {} {}", client_id, hex(payload)),
+        ServerResult::ClientConnected { client_id, addr, user_data, payload } => {
+            format!("connected {} {} {} {}", client_id, addr_text(&addr), hex(&user_data[..]), hex(payload))
+        }
+        ServerResult::ClientDisconnected { client_id, addr, payload } => format!(
+            "disconnected {} {} {}",
+            client_id,
+            addr_text(&addr),
+            match payload {
+                None => "none".to_string(),
+                Some(p) => hex(p),
+            }
+        ),
+    }
+}
+
+impl NcWorld {
+    fn datagram(&self, s: &str) -> Option<Vec<u8>> {
+        if let Some(k) = s.strip_prefix('@') {
+            let k = p_u64(k)? as usize;
+            self.history.get(k).cloned()
+        } else {
+            p_hex(s)
+        }
+    }
+
+    fn run(&mut self, op: &str) -> Option<String> {
+        let t: Vec<&str> = op.trim().split(' ').filter(|x| !x.is_empty()).collect();
+        match t.as_slice() {
+            ["note", ..] => Some("ok".into()),
+            ["rp-run", cmds] => {
+                let mut rp = ReplayProtection::new();
+                let mut bits = String::new();
+                for c in cmds.split(',') {
+                    if let Some(s) = c.strip_prefix('a') {
+                        rp.advance_sequence(p_u64(s)?);
+                    } else if let Some(s) = c.strip_prefix('q') {
+                        bits.push(if rp.already_received(p_u64(s)?) { '1' } else { '0' });
+                    } else {
+                        return None;
+                    }
+                }
+                Some(format!("{} {}", if bits.is_empty() { "-" } else { &bits }, rp.verif_dump()))
+            }
+            ["nc-enc", cap, proto, seq, key, pkt @ ..] => {
+                let cap = p_u64(cap)? as usize;
+                let proto = p_u64(proto)?;
+                let term = p_packet(pkt)?;
+                let crypto: Option<(u64, [u8; 32])> = if *seq == "-" && *key == "-" { None } else { Some((p_u64(seq)?, p_hexn(key)?)) };
+                if cap > 4096 {
+                    return None;
+                }
+                let mut buf = vec![0u8; cap];
+                let packet = term.packet();
+                match packet.encode(&mut buf, proto, crypto.as_ref().map(|(s, k)| (*s, k))) {
+                    Ok(len) => Some(format!("ok {}", hex(&buf[..len]))),
+                    Err(e) => Some(format!("err:{}", err_name(&e))),
+                }
+            }
+            ["nc-dec", proto, key, rp, dg] => {
+                let proto = p_u64(proto)?;
+                let key: Option<[u8; 32]> = if *key == "-" { None } else { Some(p_hexn(key)?) };
+                let mut rp: Option<ReplayProtection> = if *rp == "-" {
+                    None
+                } else {
+                    let mut it = rp.split(',');
+                    if it.next() != Some("n") {
+                        return None;
+                    }
+                    let mut w = ReplayProtection::new();
+                    for s in it {
+                        w.advance_sequence(p_u64(s)?);
+                    }
+                    Some(w)
+                };
+                let mut buf = self.datagram(dg)?;
+                let r = match Packet::decode(&mut buf, proto, key.as_ref(), rp.as_mut()) {
+                    Ok((seq, p)) => format!("ok {} {}", seq, show_packet(&p)),
+                    Err(e) => format!("err:{}", err_name(&e)),
+                };
+                Some(format!("{} rp={}", r, rp.map(|w| w.verif_dump()).unwrap_or("-".into())))
+            }
+            ["tok-write", id, ver, proto, create, expire, xnonce, private, timeout, addrs, c2s, s2c] => {
+                let token = ConnectToken {
+                    client_id: p_u64(id)?,
+                    version_info: p_hexn(ver)?,
+                    protocol_id: p_u64(proto)?,
+                    create_timestamp: p_u64(create)?,
+                    expire_timestamp: p_u64(expire)?,
+                    xnonce: p_hexn(xnonce)?,
+                    server_addresses: addr_array(&p_addrs(addrs)?),
+                    client_to_server_key: p_hexn(c2s)?,
+                    server_to_client_key: p_hexn(s2c)?,
+                    private_data: p_hexn(private)?,
+                    timeout_seconds: p_i32(timeout)?,
+                };
+                let mut out: Vec<u8> = vec![];
+                match token.write(&mut out) {
+                    Ok(()) => Some(format!("ok {}", hex(&out))),
+                    Err(_) => Some("err:IoError".into()),
+                }
+            }
+            ["tok-read", h] => {
+                let b = p_hex(h)?;
+                match ConnectToken::read(&mut &b[..]) {
+                    Ok(t) => Some(format!(
+                        "ok {} {} {} {} {} {} {} {} {} {} {}",
+                        t.client_id,
+                        hex(&t.version_info),
+                        t.protocol_id,
+                        t.create_timestamp,
+                        t.expire_timestamp,
+                        hex(&t.xnonce),
+                        hex(&t.private_data),
+                        t.timeout_seconds,
+                        show_addrs(&t.server_addresses),
+                        hex(&t.client_to_server_key),
+                        hex(&t.server_to_client_key)
+                    )),
+                    Err(e) => Some(format!("err:{}", err_name(&e))),
+                }
+            }
+            ["tok-gen", now, proto, expire_s, id, timeout, addrs, ud, key] => {
+                let (now, proto, expire_s, id, timeout) = (p_u64(now)?, p_u64(proto)?, p_u64(expire_s)?, p_u64(id)?, p_i32(timeout)?);
+                let addrs = p_addrs_max(addrs, 40)?;
+                let key: [u8; 32] = p_hexn(key)?;
+                let ud: Option<[u8; 256]> = if *ud == "-" { None } else { Some(p_hexn(ud)?) };
+                if addrs.iter().any(|a| a.is_none()) {
+                    return None;
+                }
+                let list: Vec<SocketAddr> = addrs.into_iter().flatten().collect();
+                match ConnectToken::generate(Duration::from_micros(now), proto, expire_s, id, timeout, list, ud.as_ref(), &key) {
+                    Ok(t) => {
+                        let consistent = match private_token_decode(&t.private_data, proto, t.expire_timestamp, &t.xnonce, &key) {
+                            Some(f) => {
+                                f.0 == id
+                                    && f.1 == timeout
+                                    && f.2[..] == t.server_addresses[..]
+                                    && ud.map(|u| u == f.5).unwrap_or(true)
+                                    && f.3 == t.client_to_server_key
+                                    && f.4 == t.server_to_client_key
+                            }
+                            None => false,
+                        };
+                        Some(format!(
+                            "ok {} {} {} {} {} {} {} consistent={}",
+                            t.client_id,
+                            hex(&t.version_info),
+                            t.protocol_id,
+                            t.create_timestamp,
+                            t.expire_timestamp,
+                            t.timeout_seconds,
+                            show_addrs(&t.server_addresses),
+                            consistent as u8
+                        ))
+                    }
+                    Err(e) => Some(format!(
+                        "err:{}",
+                        match e {
+                            renetcode::TokenGenerationError::MaxHostCount => "MaxHostCount",
+                            renetcode::TokenGenerationError::CryptoError => "CryptoError",
+                            renetcode::TokenGenerationError::IoError(_) => "IoError",
+                            renetcode::TokenGenerationError::NoServerAddressAvailable => "NoServerAddressAvailable",
+                        }
+                    )),
+                }
+            }
+            ["ptok-seal", proto, expire, xnonce, key, id, timeout, addrs, c2s, s2c, ud] => {
+                let fields: PrivateFields = (p_u64(id)?, p_i32(timeout)?, p_addrs(addrs)?, p_hexn(c2s)?, p_hexn(s2c)?, p_user_data(ud)?);
+                match private_token_encode(&fields, p_u64(proto)?, p_u64(expire)?, &p_hexn(xnonce)?, &p_hexn(key)?) {
+                    Some(b) => Some(format!("ok {}", hex(&b))),
+                    None => Some("err".into()),
+                }
+            }
+            ["ptok-open", proto, expire, xnonce, key, h] => {
+                match private_token_decode(&p_hexn(h)?, p_u64(proto)?, p_u64(expire)?, &p_hexn(xnonce)?, &p_hexn(key)?) {
+                    Some(f) => Some(format!("ok {} {} {} {} {} {}", f.0, f.1, show_addrs(&f.2), hex(&f.3), hex(&f.4), hex(&f.5))),
+                    None => Some("err".into()),
+                }
+            }
+            ["srv-new", h, now, max, proto, secure, key, ckey, addrs] => {
+                let h = p_u64(h)?;
+                let now = p_u64(now)?;
+                let max = p_u64(max)? as usize;
+                let proto = p_u64(proto)?;
+                let secure = match *secure {
+                    "1" => true,
+                    "0" => false,
+                    _ => return None,
+                };
+                let key: [u8; 32] = p_hexn(key)?;
+                let ckey: [u8; 32] = p_hexn(ckey)?;
+                let addrs = p_addrs(addrs)?;
+                if addrs.iter().any(|a| a.is_none()) {
+                    return None;
+                }
+                let mut server = NetcodeServer::new(ServerConfig {
+                    current_time: Duration::from_micros(now),
+                    max_clients: max,
+                    protocol_id: proto,
+                    public_addresses: addrs.into_iter().flatten().collect(),
+                    authentication: if secure { ServerAuthentication::Secure { private_key: key } } else { ServerAuthentication::Unsecure },
+                });
+                server.verif_set_challenge_key(ckey);
+                self.servers.insert(h, server);
+                Some("ok".into())
+            }
+            ["srv-setmax", h, n] => {
+                let n = p_u64(n)? as usize;
+                self.servers.get_mut(&p_u64(h)?)?.set_max_clients(n);
+                Some("ok".into())
+            }
+            ["srv-upd", h, us] => {
+                let us = p_u64(us)?;
+                self.servers.get_mut(&p_u64(h)?)?.update(Duration::from_micros(us));
+                Some("ok".into())
+            }
+            ["srv-updc", h, id] => {
+                let id = p_u64(id)?;
+                Some(show_result(self.servers.get_mut(&p_u64(h)?)?.update_client(id)))
+            }
+            ["srv-disc", h, id] => {
+                let id = p_u64(id)?;
+                Some(show_result(self.servers.get_mut(&p_u64(h)?)?.disconnect(id)))
+            }
+            ["srv-pay", h, id, p] => {
+                let id = p_u64(id)?;
+                let p = p_hex(p)?;
+                match self.servers.get_mut(&p_u64(h)?)?.generate_payload_packet(id, &p) {
+                    Ok((addr, out)) => Some(format!("send {} {}", addr_text(&addr), hex(out))),
+                    Err(e) => Some(format!("err:{}", err_name(&e))),
+                }
+            }
+            ["srv-rx", h, addr, dg] => {
+                let addr = p_addr(addr)?;
+                let mut buf = self.datagram(dg)?;
+                let s = self.servers.get_mut(&p_u64(h)?)?;
+                Some(show_result(s.process_packet(addr, &mut buf)))
+            }
+            ["srv-q", h, id] => {
+                let id = p_u64(id)?;
+                let s = self.servers.get(&p_u64(h)?)?;
+                let ids: Vec<String> = s.clients_id().iter().map(|x| x.to_string()).collect();
+                Some(format!(
+                    "ids=[{}] n={} max={} conn={} addr={} ud={} idle={}",
+                    ids.join(","),
+                    s.connected_clients(),
+                    s.max_clients(),
+                    if s.is_client_connected(id) { 1 } else { 0 },
+                    s.client_addr(id).map(|a| addr_text(&a)).unwrap_or("-".into()),
+                    s.user_data(id).map(|u| hex(&u[..8])).unwrap_or("-".into()),
+                    s.time_since_last_received_packet(id).map(|d| d.as_nanos().to_string()).unwrap_or("-".into())
+                ))
+            }
+            ["srv-dump", h] => Some(self.servers.get(&p_u64(h)?)?.verif_dump()),
+            ["cli-new", h, now, tok] => {
+                let h = p_u64(h)?;
+                let now = p_u64(now)?;
+                let b = p_hex(tok)?;
+                let token = match ConnectToken::read(&mut &b[..]) {
+                    Ok(t) => t,
+                    Err(e) => return Some(format!("err:{}", err_name(&e))),
+                };
+                match NetcodeClient::new(Duration::from_micros(now), ClientAuthentication::Secure { connect_token: token }) {
+                    Ok(c) => {
+                        self.clients.insert(h, c);
+                        Some("ok".into())
+                    }
+                    Err(e) => Some(format!("err:{}", err_name(&e))),
+                }
+            }
+            ["cli-upd", h, us] => {
+                let us = p_u64(us)?;
+                match self.clients.get_mut(&p_u64(h)?)?.update(Duration::from_micros(us)) {
+                    None => Some("none".into()),
+                    Some((out, addr)) => Some(format!("send {} {}", addr_text(&addr), hex(out))),
+                }
+            }
+            ["cli-rx", h, dg] => {
+                let mut buf = self.datagram(dg)?;
+                match self.clients.get_mut(&p_u64(h)?)?.process_packet(&mut buf) {
+                    None => Some("none".into()),
+                    Some(p) => Some(format!("payload {}", hex(p))),
+                }
+            }
+            ["cli-pay", h, p] => {
+                let p = p_hex(p)?;
+                match self.clients.get_mut(&p_u64(h)?)?.generate_payload_packet(&p) {
+                    Ok((addr, out)) => Some(format!("send {} {}", addr_text(&addr), hex(out))),
+                    Err(e) => Some(format!("err:{}", err_name(&e))),
+                }
+            }
+            ["cli-disc", h] => match self.clients.get_mut(&p_u64(h)?)?.disconnect() {
+                Ok((addr, out)) => Some(format!("send {} {}", addr_text(&addr), hex(out))),
+                Err(e) => Some(format!("err:{}", err_name(&e))),
+            },
+            ["cli-q", h] => {
+                let c = self.clients.get(&p_u64(h)?)?;
+                Some(format!(
+                    "connecting={} connected={} disconnected={} reason={} id={} addr={} idle={} now={}",
+                    c.is_connecting() as u8,
+                    c.is_connected() as u8,
+                    c.is_disconnected() as u8,
+                    c.disconnect_reason().map(|r| format!("{:?}", r)).unwrap_or("-".into()),
+                    c.client_id(),
+                    addr_text(&c.server_addr()),
+                    c.time_since_last_received_packet().as_nanos(),
+                    c.current_time().as_nanos()
+                ))
+            }
+            ["cli-dump", h] => Some(self.clients.get(&p_u64(h)?)?.verif_dump()),
+            _ => None,
+        }
+    }
+}
+
+impl World for NcWorld {
+    fn exec(&mut self, op: &str) -> String {
+        let out = self.run(op).unwrap_or_else(|| "bad-op".to_string());
+        if let Some((_, d)) = emitted_of(op, &out) {
+            self.history.push(d);
+        }
+        out
+    }
+}
+
+include!("nc_profiles.rs");
